@@ -52,6 +52,7 @@ type Frame struct {
 	tags          []string
 	callOrd       map[string]int
 	dbgVals       map[string]ssa.Value
+	staleDbg      map[string]Val // names (re)bound inside the loop whose header is being assumed: unknown at the header
 	collectDefers bool
 	pendingRD     []pendingRunDefers
 	curBlock      *ssa.BasicBlock
